@@ -4,7 +4,7 @@
 From Nexus Require Import Router.Realm Router.AssocLemmas Router.RealmLib Router.RealmProofs
      Router.RealmMetaProofs Router.RealmLeave.
 From Nexus Require Import Router.BrokerWf Router.BrokerPres Router.BrokerSub.
-From Nexus Require Import Router.DealerLib Router.DealerProofs Router.DealerCall Router.DealerWf
+From Nexus Require Import Router.DealerLib Router.DealerProofs Router.DealerReg Router.DealerCall Router.DealerWf
      Router.DealerWfCalls Router.DealerWfRegs Router.DealerRemove.
 From Nexus Require Import Router.RealmWf.
 From Coq Require Import Lia ZifyN ZifyNat ZifyBool.
@@ -69,6 +69,27 @@ Proof.
   split; [|exact H]. unfold lookup. destruct (N.eqb_spec (s_id s) meta_id); [contradiction|exact F].
 Qed.
 
+Lemma mrs_call : forall d0 cfg lk now d caller req opts proc args kw oracle,
+    dealer_wf lk d -> meta_regs_same d0 d ->
+    match call cfg lk now d caller req opts proc args kw oracle with
+    | CallRefused d' _ => meta_regs_same d0 d'
+    | CallAbort _ => True
+    | CallInvoked d' _ _ => meta_regs_same d0 d'
+    end.
+Proof.
+  intros d0 cfg lk now d caller req opts proc args kw oracle WF H.
+  assert (Hn : forall r next d', match_procedure d proc oracle = Some r ->
+                 d_regs d' = nset (d_regs d) (reg_id r) (reg_set_next r next) -> meta_regs_same d0 d').
+  { intros r next d' Hm E. apply (best_match_sound lk d WF) in Hm. destruct Hm as [Hr _]. unfold registered in Hr.
+    eapply (mrs_update d0 d d' (reg_id r) r); [exact H|exact Hr|exact E|reflexivity|reflexivity|reflexivity]. }
+  pose proof (call_cases cfg lk now d caller req opts proc args kw oracle) as C.
+  inversion C; subst; auto.
+  - eapply meta_regs_same_ext; [apply chs_regs|exact H].
+  - eapply Hn; [eassumption|reflexivity].
+  - eapply Hn; [eassumption|reflexivity].
+  - eapply Hn; [eassumption|apply cfs_regs].
+Qed.
+
 Theorem handle_wf : forall r s m oracle k,
     realm_wf r -> ids_below k r -> k < max_idN -> find_session (r_clients r) (s_id s) = Some s ->
     realm_wf (fst (handle r s m oracle)) /\ ids_below (k + 1) (fst (handle r s m oracle)).
@@ -116,7 +137,10 @@ Proof.
     pose proof (register_idgen (r_cfg r) (r_dealer r) s req opts proc Hd) as Id.
     pose proof (register_cr_nonempty (r_cfg r) (r_dealer r) s req opts proc (rw_cr_nonempty r W)) as Cr.
     pose proof (register_frame (r_cfg r) (r_dealer r) s req opts proc) as Fr.
-    destruct (register _ _ _ _ _ _) as [[d o] mps]. cbn [fst] in *.
+    destruct (register _ _ _ _ _ _) as [[d o] mps] eqn:Ereg. cbn [fst] in *.
+    pose proof (mrs_register (dealer0 (r_cfg r)) (r_cfg r) (r_dealer r) s req opts proc (rw_metaregs r W)
+                             (wf_regs _ _ (rw_dealer r W)) Hd Hm) as Mr.
+    rewrite Ereg in Mr. cbn [fst] in Mr.
     assert (W1 : realm_wf (r_set_dealer r d)).
     { apply wf_set_dealer; auto. intros c x. rewrite Fr. apply (rw_calls_nometa r W). }
     assert (J1 : ids_below (k + 1) (r_set_dealer r d)).
@@ -127,6 +151,7 @@ Proof.
     pose proof (unregister_wf (lookup r) (r_dealer r) (s_id s) req reg (rw_dealer r W)) as Wd.
     pose proof (unregister_cr_nonempty (r_dealer r) (s_id s) req reg (rw_cr_nonempty r W)) as Cr.
     destruct (unregister_frame (r_dealer r) (s_id s) req reg) as [Fr Fi].
+    pose proof (mrs_unregister (dealer0 (r_cfg r)) (r_dealer r) (s_id s) req reg (rw_metaregs r W) Hm) as Mr.
     destruct (unregister _ _ _ _) as [[d o] mps]. cbn [fst] in *.
     assert (W1 : realm_wf (r_set_dealer r d)).
     { apply wf_set_dealer; auto. intros c x. rewrite Fr. apply (rw_calls_nometa r W). }
@@ -141,6 +166,8 @@ Proof.
     pose proof (call_wf (r_cfg r) (lookup r) (r_now r) (r_dealer r) s req opts proc args kw oracle
                         (rw_dealer r W) LOK NW Ha) as CW.
     pose proof (call_facts (r_cfg r) (lookup r) (r_now r) (r_dealer r) s req opts proc args kw oracle LOK NW) as CF.
+    pose proof (mrs_call (dealer0 (r_cfg r)) (r_cfg r) (lookup r) (r_now r) (r_dealer r) s req opts proc args kw oracle
+                         (rw_dealer r W) (rw_metaregs r W)) as Mr.
     destruct (call _ _ _ _ _ _ _ _ _ _ _) as [d o|o|d callee o].
     + destruct CF as (F1 & F2 & F3). cbn [fst]. apply Up. split.
       * apply wf_set_dealer; auto.
@@ -158,7 +185,8 @@ Proof.
       assert (W2 : realm_wf (r_set_dealer (update_session r callee) d)).
       { apply wf_set_dealer; auto.
         - rewrite F1. exact (rw_cr_nonempty r W).
-        - intros c x Hc. destruct (F3 c x Hc) as [->|Hc']; [exact Hm|]. eapply (rw_calls_nometa r W); eauto. }
+        - intros c x Hc. destruct (F3 c x Hc) as [->|Hc']; [exact Hm|]. eapply (rw_calls_nometa r W); eauto.
+        - destruct (update_session_frame r callee) as (Fc & _). rewrite Fc. exact Mr. }
       assert (J2 : ids_below (k + 1) (r_set_dealer (update_session r callee) d)).
       { assert (J : ids_below (k + 1) (update_session r callee)).
         { apply J1; [exact I| |lia]. specialize (I3 _ _ Hc0). lia. }
@@ -170,10 +198,10 @@ Proof.
       apply as_id_vid in Hc; [|apply (rw_ids r W s); eapply find_session_In; eauto]. subst c.
       change (client (update_session r callee) (s_id s)). now apply client_update.
   - (* CANCEL *)
-    destruct (cancel_frame (lookup r) (r_dealer r) (s_id s) req opts) as [E1 E2].
+    destruct (cancel_frame (lookup r) (r_dealer r) (s_id s) req opts) as (E1 & E2 & E3).
     pose proof (cancel_wf (lookup r) (lookup r) (r_dealer r) (s_id s) req opts (rw_dealer r W)) as Wd.
     destruct (cancel_core (lookup r) (r_dealer r) (s_id s) req opts (wf_calls _ _ (rw_dealer r W))) as [_ S].
-    pose proof (dealer_step_wf r _ k W I Wd E1 E2 S) as Y.
+    pose proof (dealer_step_wf r _ k W I Wd E1 E2 E3 S) as Y.
     destruct (cancel _ _ _ _ _) as [d o]. apply Up. exact Y.
   - (* YIELD *)
     pose proof (sync_yield_realm_wf r (s_id s) req opts args kw k W I) as Y.
@@ -208,23 +236,15 @@ Proof.
   - cbn [step]. set (r1 := r_set_now r (r_now r + ms)).
     assert (W1 : realm_wf r1) by (destruct W; constructor; auto).
     assert (I1 : ids_below k r1) by exact I.
-    destruct (fire_timers_frame (lookup r1) (r_now r1) (r_dealer r1)) as (E1 & E2 & S).
+    destruct (fire_timers_frame (lookup r1) (r_now r1) (r_dealer r1)) as (E1 & E2 & E3 & S).
     pose proof (fire_timers_wf (lookup r1) (lookup r1) (r_now r1) (r_dealer r1) (rw_dealer r1 W1)) as Wd.
-    pose proof (dealer_step_wf r1 _ k W1 I1 Wd E1 E2 (S (wf_calls _ _ (rw_dealer r1 W1)))) as Y.
+    pose proof (dealer_step_wf r1 _ k W1 I1 Wd E1 E2 E3 (S (wf_calls _ _ (rw_dealer r1 W1)))) as Y.
     destruct (fire_timers _ _ _) as [d out]. apply Up. exact Y.
 Qed.
 
 (** ** The initial realm *)
 Definition lk0 : N -> option session :=
   fun sid => if N.eqb sid meta_id then Some meta_session else find_session [] sid.
-
-Definition init_f (cfg : config) :=
-  fun '((d, procs) : dealer * list (N * string)) name =>
-    let '(d1, o, _) := register cfg d meta_session (N.of_nat (List.length procs) + 1) [("disclose_caller", VBool true)] name in
-    match o with
-    | [(_, RRegistered _ id)] => (d1, procs ++ [(id, name)])
-    | _ => (d1, procs)
-    end.
 
 Lemma init_f_fst : forall cfg d procs name,
     fst (init_f cfg (d, procs) name) =
@@ -255,6 +275,17 @@ Proof.
     cbv zeta. split; [exact A|]. split; [lia|]. split; [exact C|exact D].
 Qed.
 
+Lemma meta_regs_same_init : forall d, dealer_wf lk0 d -> meta_regs_same d d.
+Proof.
+  intros d W. split.
+  - intros id rg H. exists rg. repeat split; auto.
+    destruct (rw_callees _ (wf_regs _ _ W) id rg H) as (Hne & _).
+    destruct (reg_callees rg) as [|c l] eqn:E; [congruence|].
+    assert (A : attached lk0 c) by (eapply (wf_regs_att _ _ W); [exact H|rewrite E; now left]).
+    unfold attached, lk0 in A. destruct (N.eqb_spec c meta_id); [subst; now left|]. cbn in A. congruence.
+  - intros id rg H _. congruence.
+Qed.
+
 Definition k0 (cfg : config) : N :=
   N.of_nat (List.length (c_hist cfg)) + N.of_nat (List.length (meta_proc_names cfg)).
 
@@ -279,7 +310,7 @@ Proof.
                            (N.le_refl 0) Cn eq_refl Hm) as Fd.
   cbv zeta in Fd. destruct Fd as (Wd & Id & Cd & Ed).
   change (fold_left _ (meta_proc_names cfg) (empty_dealer, [])) with (fold_left (init_f cfg) (meta_proc_names cfg) (empty_dealer, [])).
-  destruct (fold_left (init_f cfg) (meta_proc_names cfg) (empty_dealer, [])) as [d procs]. cbn [fst] in *.
+  destruct (fold_left (init_f cfg) (meta_proc_names cfg) (empty_dealer, [])) as [d procs] eqn:Efold. cbn [fst] in *.
   split.
   - constructor; cbn [r_meta r_clients r_broker r_dealer r_testaments r_cfg]; auto.
     + intros s [].
@@ -288,6 +319,7 @@ Proof.
     + constructor.
     + intros c x. rewrite Ed. discriminate.
     + apply hist_same_refl.
+    + unfold dealer0. rewrite Efold. cbn [fst]. apply (meta_regs_same_init d Wd).
   - unfold ids_below, k0. cbn [r_broker r_dealer]. cbn in Ib. split; [lia|]. split; [lia|].
     intros x s E. unfold lookup in E. cbn [r_meta r_clients] in E.
     destruct (N.eqb x meta_id); [inversion E; cbn; lia|discriminate].
